@@ -13,7 +13,12 @@ and user cancellations.  The inner component is always a legal state of the inne
 `Props/C05.lean` holds for it verbatim; what is proved here is the second stage.
 
 `closedFirst = true` is the code as it is (commit 7eb8348: `closed = True` before `await self._message_queue.stop()`); the order
-before that commit is `closedFirst = false`, for which `Witness/C05App.lean` proves the deadlock.
+before that commit is `closedFirst = false`.
+
+`close()` awaited from the message callback is carried out by the calling task, the second dispatcher (the repair of
+C05-app-close-from-message-callback; `Model/AppSession.lean`, `closeOnD2`): `C05App_close_never_raises` holds without any
+hypothesis on the callbacks.  `Witness/C05AppOld.lean` keeps the transition before the repair and decides that it ends the call with
+`CancelledError` on the recorded history (and, with the old order, deadlocks in the clean-up).
 -/
 namespace NasdaqModel.Props.C05App
 open NasdaqModel App
@@ -222,48 +227,85 @@ theorem C05App_released_caller_returns (a : ACfg) (s : St) (u : Nat)
     alive2 ((step a s (.run (.W u))).astatus (.W u)) = false := by
   simp [step, runnable2, hW, stepRun2, hp, St.finish2, St.emit2, alive2]
 
-/-- **Close calls never raise (partial).** If no application message callback awaits `close()` in its body, then — for the code
-    as it is (`closedFirst`) — every `await app.close()` that has ended, whoever made it (a user task, a message callback in its
-    cancellation clean-up, the close callback), returned normally, except that a *user task the user cancelled* while it was
-    waiting reports that cancellation.
-    Full statement (without the hypothesis on the message callbacks): false of the code — the known finding
-    C05-app-close-from-message-callback, `Witness.C05App.C05App_witness_close_from_handler_cancelled`. -/
-theorem C05App_close_never_raises_partial (a : ACfg) (evs : List Ev) (hcf : a.closedFirst = true)
-    (hnc : ∀ v, a.msgBeh v ≠ .close ∧ ∀ k, a.msgBeh v ≠ .awaitClose k) (c : Caller) (r : Sess.Res)
+/-- **Close calls never raise.** Every `await app.close()` that has ended, whoever made it — a user task, a message callback in
+    its body (at once or after some work) or in its cancellation clean-up, the close callback — and whatever else happened
+    meanwhile, returned normally; the only exception is a *user task the user cancelled* while it was waiting, which reports
+    that cancellation.  No hypothesis on the configuration: any callbacks, either order inside `_on_soup_close`. -/
+theorem C05App_close_never_raises (a : ACfg) (evs : List Ev) (c : Caller) (r : Sess.Res)
     (h : AObs.closeRet c r ∈ (reach a evs).trace2) :
     r = .ok ∨ (∃ u, c = .user u ∧ r = .cancelled) := by
   have key := runEvs_InvO (a := a)
-    (P := fun o => ∀ c r, o = AObs.closeRet c r → r = .ok ∨ (∃ u, c = .user u ∧ r = .cancelled)) ?_ ?_ ?_ evs
+    (P := fun o => ∀ c r, o = AObs.closeRet c r → r = .ok ∨ (∃ u, c = .user u ∧ r = .cancelled)) ?_ evs
   · exact key _ h c r rfl
-  · -- the plain observables: a `closeRet` among them is `ok`, or a user's own cancellation
+  · -- the observables a step can append: a `closeRet` among them is `ok`, or a user's own cancellation
     intro o ho c r e
     subst e
     cases r <;> cases c <;> simp_all [plainObs]
-  · intro v hv
-    rcases hv with hv | ⟨k, hv⟩
-    · exact absurd hv (hnc v).1
-    · exact absurd hv ((hnc v).2 k)
-  · intro h; rw [hcf] at h; contradiction
 
-/-- **No handler is left inside `close()` (partial).** If no application message callback awaits `close()` in its body (at once or
-    after some work), then in no
-    reachable state is the second dispatcher suspended inside a `close()` call of a message callback — the situation in which
-    that call ends with `CancelledError` (the known finding C05-app-close-from-message-callback, `Witness/C05App.lean`); and
-    with the repaired order (`closedFirst`) no message callback is ever suspended in the `close()` of its cancellation clean-up.
-    Full statement (false of the code, see the witness): "every `await app.close()` returns normally". -/
-theorem C05App_no_handler_inside_close_partial (a : ACfg) (evs : List Ev) :
-    ((∀ v, a.msgBeh v ≠ .close ∧ ∀ k, a.msgBeh v ≠ .awaitClose k) →
-      ∀ v, ¬ ((reach a evs).aprog .D2 = .handlerClose v ∧ alive2 ((reach a evs).astatus .D2) = true)) ∧
+/-- in particular: a `close()` awaited from a message callback or from the close callback never ends with `CancelledError` -/
+theorem C05App_callback_close_returns_ok (a : ACfg) (evs : List Ev) (r : Sess.Res) :
+    (∀ v, AObs.closeRet (.handler v) r ∈ (reach a evs).trace2 → r = .ok) ∧
+    (AObs.closeRet .closeCb r ∈ (reach a evs).trace2 → r = .ok) := by
+  constructor
+  · intro v h
+    rcases C05App_close_never_raises a evs _ _ h with h' | ⟨u, h', _⟩
+    · exact h'
+    · cases h'
+  · intro h
+    rcases C05App_close_never_raises a evs _ _ h with h' | ⟨u, h', _⟩
+    · exact h'
+    · cases h'
+
+/-- **A message callback inside `close()` is the closer, never a waiter.** In no reachable state does the second dispatcher wait
+    for the close event, and whenever a message callback is inside a `close()` call (from its body: `handlerClose`; from its
+    cancellation clean-up: `cleanupClose`) the dispatcher is carrying out `soup_session.close()` itself (`inSoup`): it is not
+    suspended on anything `queue.stop()` would have to cancel, and no cancellation is pending for it — the situation in which the
+    call ended with `CancelledError` before the repair (`Witness/C05AppOld.lean`) does not exist.  Only the dispatcher is ever
+    `inSoup`, and only inside such a call; a callback gets there only if it is of the closing kind; and with the order as it is
+    (`closedFirst`) the `close()` of a cancellation clean-up never even gets past its guard. -/
+theorem C05App_handler_inside_close_is_closer (a : ACfg) (evs : List Ev) :
+    (reach a evs).astatus .D2 ≠ .waitE ∧
+    (∀ v, (reach a evs).aprog .D2 = .handlerClose v ∨ (reach a evs).aprog .D2 = .cleanupClose v →
+      alive2 ((reach a evs).astatus .D2) = true →
+      (reach a evs).astatus .D2 = .inSoup ∧ (reach a evs).astatus .D2 ≠ .cancelled) ∧
+    (∀ t, (reach a evs).astatus t = .inSoup →
+      t = .D2 ∧ ((∃ v, (reach a evs).aprog .D2 = .handlerClose v) ∨ ∃ v, (reach a evs).aprog .D2 = .cleanupClose v)) ∧
+    (∀ v, (reach a evs).aprog .D2 = .handlerClose v → alive2 ((reach a evs).astatus .D2) = true →
+      a.msgBeh v = .close ∨ ∃ k, a.msgBeh v = .awaitClose k) ∧
     (a.closedFirst = true → ∀ v, ¬ ((reach a evs).aprog .D2 = .cleanupClose v ∧ alive2 ((reach a evs).astatus .D2) = true)) := by
   have i := runEvs_Inv a evs
-  constructor
-  · intro hnc v ⟨h1, h2⟩
-    rcases i.ss.hc v h1 h2 with h | ⟨k, h⟩
-    · exact (hnc v).1 h
-    · exact (hnc v).2 k h
+  refine ⟨i.ss.ds, ?_, i.ss.ip, i.ss.hc, ?_⟩
+  · intro v h1 h2
+    have h3 := i.ss.hs v h1 h2
+    exact ⟨h3, by rw [h3]; simp⟩
   · intro hcf v ⟨h1, h2⟩
     have := i.ss.cc v h1 h2
     rw [hcf] at this; contradiction
+
+/-- **The steps of a dispatcher that carries out the close are the steps of the closer of the soup session**: while the second
+    dispatcher is inside the `soup_session.close()` of a message callback's `close()`, the event `run D2` is the inner event
+    `run (U d2u)` — the task `C05App_close_never_deadlocks` names when the dispatcher is the closer — and the user cannot interfere
+    with that task (its inner events are refused). -/
+theorem C05App_dispatcher_closer_step (a : ACfg) (s : St) (hD : s.astatus .D2 = .inSoup) :
+    step a s (.run .D2) = stepInner a { s with imm2 := false } (.run (.U d2u)) ∧
+    step a s (.inner (.run (.U d2u))) = s ∧ step a s (.inner (.cancel d2u)) = s ∧ step a s (.inner (.callClose d2u)) = s := by
+  refine ⟨?_, ?_, ?_, ?_⟩
+  · simp [step, runnable2, hD]
+  · simp [step, reservedEv]
+  · simp [step, reservedEv]
+  · simp [step, reservedEv]
+
+/-- **The dispatcher that carries out the close has ended when the close has.** When the close of the soup session has run to
+    its end, the second dispatcher is not alive any more — also when it was the closer: the `close()` of the message callback
+    has returned, the callback has returned, the dispatcher loop has ended, all in the step in which `_on_soup_close` returned. -/
+theorem C05App_dispatcher_ended_with_close (a : ACfg) (evs : List Ev) (h : (reach a evs).inner.cstage = .finished)
+    (hb : (reach a evs).built = true) :
+    alive2 ((reach a evs).astatus .D2) = false ∧ (reach a evs).disp2Set = false ∧ (reach a evs).astatus .D2 ≠ .inSoup := by
+  have i := runEvs_Inv a evs
+  have hc : (reach a evs).cpc = .finished := i.yy.s3 h
+  have hD := i.ss.dnf rfl hb hc
+  refine ⟨hD, (i.ss.dn hb (Or.inr (by rw [hc]; rfl))).2, ?_⟩
+  intro h2; rw [h2] at hD; simp [alive2] at hD
 
 /-! ### non-vacuity: concrete lifetimes -/
 
@@ -289,5 +331,28 @@ example : (reach a1 life).trace2 =
 set_option maxRecDepth 100000 in
 example : (reach a1 life).inner.cstage = .finished ∧ (reach a1 life).built = true ∧ (reach a1 life).cpc = .finished ∧
     (reach a1 life).appClosed = true ∧ (reach a1 life).evt = some true := by decide
+
+/-- the callback for 3 works, then awaits `close()`; a user task calls `close()` while the callback's close is under way (it returns at once: the event exists); the dispatcher stops the soup session's tasks, runs
+    `_on_soup_close` (the close callback calls `close()` as well) and returns into the callback -/
+private def a2 : ACfg :=
+  { dec := fun n => if n = 0 then .skip else .val n
+    hasMsgCb := true, msgBeh := fun v => if v = 3 then .awaitClose 0 else .ret, hasCb := true, cbBeh := .close, closedFirst := true }
+
+private def life2 : List Ev := login ++
+  [.run .D2, .inner (.run .D), .inner (.data [.msg 3, .msg 4]), .inner (.run .R), .inner (.run .R),
+   .inner (.run .D), .inner (.run .D), .inner (.run .D), .run .D2, .run .D2, .appClose 2,
+   .inner (.run .D), .run .D2, .inner (.run .L), .run .D2, .inner (.run .M), .run .D2, .inner (.run .R), .run .D2]
+
+set_option maxRecDepth 100000 in
+example : (reach a2 life2).trace2 =
+    [.msgEnter 3, .closeRet (.user 2) .ok, .cbEnter, .closeRet .closeCb .ok, .cbExit, .closeRet (.handler 3) .ok, .msgExit 3] := by
+  decide
+set_option maxRecDepth 100000 in
+example : (reach a2 life2).inner.cstage = .finished ∧ (reach a2 life2).cpc = .finished ∧ (reach a2 life2).appClosed = true ∧
+    (reach a2 life2).evt = some true ∧ (reach a2 life2).astatus .D2 = .done ∧ (reach a2 life2).q2 = [4] := by decide
+set_option maxRecDepth 100000 in
+/-- midway the dispatcher is the closer -/
+example : (reach a2 (life2.take 18)).astatus .D2 = .inSoup ∧ (reach a2 (life2.take 18)).aprog .D2 = .handlerClose 3 ∧
+    (reach a2 (life2.take 18)).inner.closed = true ∧ (reach a2 (life2.take 18)).inner.status (.U d2u) = .waitT .D := by decide
 
 end NasdaqModel.Props.C05App
